@@ -260,6 +260,7 @@ func (ts *timeSeries) Latest(level, num int) Observable {
 	}
 
 	ts.mergePendingUpdates()
+	ts.pendingTime = ts.levels[0].end
 
 	result := ts.provider()
 	l := ts.levels[level]
@@ -296,6 +297,7 @@ func (ts *timeSeries) LatestBuckets(level, num int) []Observable {
 	}
 
 	ts.mergePendingUpdates()
+	ts.pendingTime = ts.levels[0].end
 
 	l := ts.levels[level]
 	index := l.newest
